@@ -85,6 +85,14 @@ HISTORY = {
     "C16-10": "fifth round: caught as built",
     "C18-10": "fifth round: missed at first (step sizes, lengths and subsample frequencies were such that f*round(L/eps) and round(f*L/eps) agreed): non-dyadic values added",
     "C14-8": "missed by C14 at first (its cases never flushed in the middle of a run; C15 caught it): flushes at random steps added to the C14 cases",
+    "C08-11": "would have been missed before the sixth round (the low-rank estimator was never fed a degenerate window): caught with a failing input by the direct-drive tie added in that round (const_draw0 window leaves std 0 / inverse inf in use)",
+    "C08-12": "caught by C02's logdet oracle as built; C08 reports it through the new model tie of LowRankMassMatrix::update (installed parameters)",
+    "C02-11": "same idea as C02-5 (sixth-round agent): caught as built by C02, and by C08's new direct calls of update (id did not move but the parameters did)",
+    "C02-12": "caught as built (forward/backward oracle on a rank-0 low-rank update with a non-zero translation)",
+    "C05-11": "caught as built (+inf log-density in the fault sweep)",
+    "C05-12": "caught as built (unrecoverable error inside the re-initialisation search)",
+    "C16-11": "caught as built (event statistic present although the event did not happen)",
+    "C16-12": "missed at first (no case of C16 retained eigenvalues: diagonal targets only): strongly correlated Gaussians added for the low-rank presets with store_mass_matrix, with a coverage obligation that stored eigenvalues with a low-rank part were seen",
 }
 
 
